@@ -133,6 +133,31 @@ inline extra: a a a;
 U: a;
 extend tail: a a;
 `},
+	// named token sets that refer to each other, with and without template parameters in the grammar
+	// (templates route the sets through syntax.Instantiate, inline use through syntax.Expand)
+	{"f-namedsets-tpl", `language ns(go);
+:: lexer
+a: /a/
+b: /b/
+c: /c/
+:: parser
+%flag F;
+%generate s1 = set(a | b);
+%generate s2 = set(s1 | c);
+input: q<+F> set(s2 | a);
+q<F>: [F] a | [!F] b;
+`},
+	{"f-namedsets", `language ns(go);
+:: lexer
+a: /a/
+b: /b/
+c: /c/
+:: parser
+%generate s1 = set(a | b);
+%generate s2 = set(s1 | c);
+input: q set(s2 | a);
+q: a | c set(s1 & ~b);
+`},
 }
 
 // jsMini is a hand cut-down of parsers/js/js.tm (header options, start conditions, flags,
